@@ -1011,9 +1011,28 @@ fn direction_oracles(c: &mut Ctx, fx: &Fx) {
             c.fail("C18 conversion thread died", tz);
             continue;
         }
+        // correspondence with the model's entry points (`lc.off`, Props/C18.lean
+        // `one_lookup_per_entry_point`): the world as the model may ask for it under this TZ value, plus
+        // what the named zone answers for the reading in each direction; the reply is the answer of the
+        // direction the entry point routes to, from the zone the model selects
+        let tzv = TzVal { v: Some(tz.as_bytes().to_vec()), kind: "direction", expect: None };
+        let world = world_tokens(fx, &[&tzv], &dg1, 0);
+        let zn = dg1(zone);
+        let mut k_same = 0usize;
         for (d, g) in dts.iter().zip(got) {
             let want_u = zone.offset_at(d.and_utc().timestamp()).map(|x| x.0.to_string()).unwrap_or("panic".into());
             let want_l = zone.offsets_for_local(*d).map(show_m).unwrap_or("panic".into());
+            k_same += 1;
+            if want_u != want_l || k_same % 8 == 0 {
+                let ts = d.and_utc().timestamp();
+                let tail = format!("{} {} {} A{}:u={} A{}:l={}", tzv.tok(), ts, world, zn, want_u, zn, want_l);
+                let first = |x: &str| x.split(' ').next().unwrap_or("").to_string();
+                c.op(&format!("lc.off ou {}", tail), &g.0);
+                c.op(&format!("lc.off ol {}", tail), &g.1);
+                c.op(&format!("lc.off fu {}", tail), &first(&g.2));
+                c.op(&format!("lc.off fl {}", tail), &first(&g.3));
+                c.count(if want_u != want_l { "direction.model-ops.directions-differ" } else { "direction.model-ops.directions-agree" });
+            }
             c.count(&format!("direction.local-result.{}", if want_l.starts_with("amb") { "ambiguous" } else if want_l == "none" { "none" } else { "single" }));
             if want_u != want_l {
                 c.count("direction.readings-where-directions-differ");
@@ -1047,6 +1066,11 @@ fn direction_oracles(c: &mut Ctx, fx: &Fx) {
             .unwrap_or_default();
             let want_u = zone.offset_at(mid.and_utc().timestamp()).map(|x| x.0.to_string()).unwrap_or("panic".into());
             let want_l = zone.offsets_for_local(mid).map(show_m).unwrap_or("panic".into());
+            {
+                let tail = format!("{} {} {} A{}:u={} A{}:l={}", tzv.tok(), mid.and_utc().timestamp(), world, zn, want_u, zn, want_l);
+                c.op(&format!("lc.off du {}", tail), &gu);
+                c.op(&format!("lc.off dl {}", tail), &gl);
+            }
             if gu != want_u || gl != want_l {
                 c.fail("C18 Local.offset_from_*_date is not the named zone's answer at midnight", &format!("TZ={:?} date={} got {} / {} want {} / {}", tz, date, gu, gl, want_u, want_l));
             }
@@ -1055,6 +1079,7 @@ fn direction_oracles(c: &mut Ctx, fx: &Fx) {
         let mut it = now.split(' ');
         if let (Some(ts), Some(off)) = (it.next().and_then(|x| x.parse::<i64>().ok()), it.next()) {
             let want = zone.offset_at(ts).map(|x| x.0.to_string()).unwrap_or("panic".into());
+            c.op(&format!("lc.off now {} {} {} A{}:u={} A{}:l=-", tzv.tok(), ts, world, zn, want, zn), off);
             if off != want {
                 c.fail("C18 Local::now() does not carry the named zone's offset", &format!("TZ={:?} ts={} got {} want {}", tz, ts, off, want));
             }
